@@ -12,7 +12,7 @@ for d in sorted(os.listdir(os.path.join(V, 'seeded'))):
         if not os.path.exists(f):
             continue
         txt = open(f).read()
-        hs = re.findall(r'^VIOLATION property=\S+ replay=\S*/([A-Za-z0-9_]+)\.rs', txt, flags=re.M)
+        hs = re.findall(r'^VIOLATION property=\S+ replay=.*?/([A-Za-z0-9_]+)\.rs', txt, flags=re.M)
         hs += re.findall(r'^ALSO-FAILING property=\S+ harness=(\S+)', txt, flags=re.M)
         inc = re.findall(r'^INCONCLUSIVE property=\S+ harness=(\S+)', txt, flags=re.M)
         ok = re.search(r'^OK property=', txt, flags=re.M) is not None
